@@ -299,6 +299,151 @@ def div_exponent(e):
     return tot
 
 
+# ------------------------------------------------------------------------------------------ sub-expressions, c / A oracle
+def ex_children(e):
+    if e[0] in ("op", "arr"):
+        return []
+    return [x for x in e[1:] if isinstance(x, list) and x and isinstance(x[0], str)]
+
+
+def ex_subexprs(e):
+    """the sub-expressions of e (operator leaves are not entered), children before parents, without repetitions"""
+    out, seen = [], set()
+
+    def walk(x):
+        for y in ex_children(x):
+            walk(y)
+        k = common.canon(x)
+        if k not in seen:
+            seen.add(k)
+            out.append(x)
+    walk(e)
+    return out
+
+
+def _fr(x):
+    from fractions import Fraction
+    if isinstance(x, dict):
+        return Fraction(x["q"][0], x["q"][1])
+    if isinstance(x, str):
+        n, d = x.split("/")
+        return Fraction(int(n), int(d))
+    return Fraction(x)
+
+
+def _zq(z):
+    """scalar of the case language / entry of a driver matrix -> (re, im) as Fractions"""
+    if isinstance(z, list):
+        return (_fr(z[0]), _fr(z[1]))
+    return (_fr(z), _fr(0))
+
+
+def _zmul(a, b):
+    return (a[0] * b[0] - a[1] * b[1], a[0] * b[1] + a[1] * b[0])
+
+
+def _zinv(a):
+    d = a[0] * a[0] + a[1] * a[1]
+    return (a[0] / d, -a[1] / d)
+
+
+def _zjson(a):
+    def q(f):
+        return int(f) if f.denominator == 1 else {"q": [f.numerator, f.denominator]}
+    return [q(a[0]), q(a[1])]
+
+
+def ginv(M):
+    """exact inverse of a square matrix of Gaussian rationals (Gauss-Jordan over Q[i]); None if singular"""
+    from fractions import Fraction
+    n = len(M)
+    zero, one = (Fraction(0), Fraction(0)), (Fraction(1), Fraction(0))
+    A = [list(row) + [one if i == j else zero for j in range(n)] for i, row in enumerate(M)]
+    for col in range(n):
+        piv = next((r for r in range(col, n) if A[r][col] != zero), None)
+        if piv is None:
+            return None
+        A[col], A[piv] = A[piv], A[col]
+        iv = _zinv(A[col][col])
+        A[col] = [_zmul(iv, v) for v in A[col]]
+        for r in range(n):
+            if r != col and A[r][col] != zero:
+                f = A[r][col]
+                A[r] = [(v[0] - _zmul(f, w)[0], v[1] - _zmul(f, w)[1]) for v, w in zip(A[r], A[col])]
+    return [row[n:] for row in A]
+
+
+UNDEF = ["undef"]
+
+
+def has_undef(e):
+    return e[0] == "undef" or any(has_undef(x) for x in ex_children(e))
+
+
+def sdiv_oracle(exprs, run_driver):
+    """`c / A` means c * inverse(A).  Returns, for every expression, the expression with each `sdiv c x` node replaced by a
+    leaf holding the EXACT matrix c * inverse(meaning x) (Gauss-Jordan over the Gaussian rationals; the meaning of x is asked
+    from the Lean specification) -- an `["undef"]` leaf where x has no meaning, is not square or is singular.  The Lean
+    specification of the rewritten expression is then the matrix expression the property text means, also above the
+    quotient; nothing here looks at what cola or the code model return."""
+    cur = list(exprs)
+    for _ in range(8):
+        inner = {}
+
+        def collect(x):
+            kids = ex_children(x)
+            for y in kids:
+                collect(y)
+            if x[0] == "sdiv" and not has_sdiv(x[2]) and not has_undef(x[2]):
+                inner.setdefault(common.canon(x), x)
+        for e in cur:
+            if has_sdiv(e):
+                collect(e)
+        if not inner:
+            break
+        keys = list(inner)
+        ans = run_driver([{"id": i, "call": "expr", "ex": inner[k][2]} for i, k in enumerate(keys)])
+        table = {}
+        for i, k in enumerate(keys):
+            sp = (ans.get(i) or {}).get("spec") or {}
+            rep = UNDEF
+            if sp.get("kind") == "mat" and sp["rows"] == sp["cols"]:
+                inv = ginv([[_zq(z) for z in row] for row in sp["value"]])
+                if inv is not None:
+                    c = _zq(inner[k][1]["v"])
+                    val = [[_zjson(_zmul(c, z)) for z in row] for row in inv]
+                    n = sp["rows"]
+                    rep = ["arr", sp["dtype"], n, n, val] if sp.get("isarr") else ["op", ["dense", sp["dtype"], n, n, val]]
+            table[k] = rep
+
+        def replace(x):
+            if x[0] in ("op", "arr", "undef"):
+                return x
+            k = common.canon(x)
+            if k in table:
+                return table[k]
+            return [x[0]] + [replace(y) if isinstance(y, list) and y and isinstance(y[0], str) else y for y in x[1:]]
+        cur = [replace(e) if has_sdiv(e) else e for e in cur]
+    # an sdiv that could not be resolved (operand itself undefined) is undefined
+    def close(x):
+        if x[0] in ("op", "arr", "undef"):
+            return x
+        if x[0] == "sdiv":
+            return UNDEF
+        return [x[0]] + [close(y) if isinstance(y, list) and y and isinstance(y[0], str) else y for y in x[1:]]
+    return [close(e) if has_sdiv(e) else e for e in cur]
+
+
+def spec_agrees(obs, spec):
+    """does an observation (code-model or real result) agree with the specification on kind, shape, entries, dtype?"""
+    if spec["kind"] == "undefined":
+        return False
+    if spec["kind"] == "none":
+        return obs["kind"] == "err"
+    want_kind = "arr" if spec.get("isarr") else "op"
+    return obs["kind"] == want_kind and all(obs.get(k) == spec[k] for k in ("rows", "cols", "value", "dtype"))
+
+
 def classify(e, ans, real):
     if "error" in ans:
         return "driver-error", ans["error"]
@@ -331,25 +476,22 @@ def classify(e, ans, real):
             if all(real.get(k) == code[k] for k in keys) and (real.get("skel") != code.get("skel") or real.get("anns") != code.get("anns")):
                 return "skipped", "identity assumption of the model (equal but distinct objects in a Gram pattern)"
         rc = all(real.get(k) == code[k] for k in keys)
-    # code vs spec
-    if spec["kind"] == "none":
-        cs = code["kind"] == "err"
-        rs = real["kind"] == "err"
-    else:
-        # shape, entries, dtype and array-versus-operator against the INDEPENDENT specification
-        # (`Ex.meaning`, `Ex.dtypeSpec`, `Ex.yieldsArr`): real = code = spec on all of them
-        want_kind = "arr" if spec.get("isarr") else "op"
-        cs = code["kind"] == want_kind and all(code.get(k) == spec[k] for k in ("rows", "cols", "value", "dtype"))
-        rs = real["kind"] == want_kind and all(real.get(k) == spec[k] for k in ("rows", "cols", "value", "dtype"))
-    if clauses and "scalar-divided-by-operator" in clauses:
-        cs = False   # c / A is c * inverse(A); the code model (and cola) build A * (1/c)
-        rs = False
+    # code vs spec: shape, entries, dtype and array-versus-operator against the INDEPENDENT specification (`Ex.meaning`,
+    # `Ex.dtypeSpec`, `Ex.yieldsArr`); for an expression with a `c / A` node the specification is that of the expression with
+    # the node replaced by the exact matrix c * inverse(A) (`sdiv_oracle`; "undefined" where A is singular), so a quotient is
+    # compared like everything else: it agrees in the coincidence cases A * (1/c) = c * inverse(A) and differs otherwise
+    if has_sdiv(e):
+        if "oracle_spec" not in ans:
+            return "driver-error", "no oracle specification for an expression with a c / A node"
+        spec = ans["oracle_spec"]
+    cs = spec_agrees(code, spec)
+    rs = spec_agrees(real, spec)
     if rc:
         return ("ok", "") if cs else ("known?", clauses)
     if rs:
         return "stale-model", "real agrees with the matrix expression but not with the code model"
     why = []
-    if real["kind"] != "err" and spec["kind"] != "none":
+    if real["kind"] != "err" and spec["kind"] == "mat":
         bad = [k for k in ("rows", "cols", "value", "dtype") if real.get(k) != spec[k]]
         if real["kind"] != ("arr" if spec.get("isarr") else "op"):
             bad.append("kind")
@@ -359,6 +501,8 @@ def classify(e, ans, real):
         why.append(f"raised {real['value']}: {real.get('msg', '')}")
     elif spec["kind"] == "none":
         why.append("shape-mismatched operands produced an operator instead of an error")
+    elif spec["kind"] == "undefined":
+        why.append("c / A with a singular A has no value, the code returned one")
     else:
         why.append("result differs from the matrix expression")
     return "violation", "; ".join(why)
@@ -432,10 +576,26 @@ def run(ctx):
     known = common.known_clauses(ctx.prop)
     stats, forms, scal_hist = collections.Counter(), collections.Counter(), collections.Counter()
     distinct, samples = set(), []
+    attributed_hist = collections.Counter()
 
     def evaluate(exprs):
         cases = [{"id": i, "call": "expr", "ex": e} for i, e in enumerate(exprs)]
         ans = oracle.run_driver(cases)
+        # the specification of an expression with `c / A` nodes: Lean's specification of the expression with every such
+        # node replaced by the exact matrix c * inverse(A)
+        idx = [i for i, e in enumerate(exprs) if has_sdiv(e)]
+        if idx:
+            rew = sdiv_oracle([exprs[i] for i in idx], oracle.run_driver)
+            todo = [(i, r) for i, r in zip(idx, rew) if not has_undef(r)]
+            a2 = oracle.run_driver([{"id": n, "call": "expr", "ex": r} for n, (i, r) in enumerate(todo)]) if todo else {}
+            for n, (i, r) in enumerate(todo):
+                sp = (a2.get(n) or {}).get("spec")
+                if sp is not None and i in ans and "error" not in ans[i]:
+                    ans[i]["oracle_spec"] = sp
+            for i, r in zip(idx, rew):
+                if has_undef(r) and i in ans and "error" not in ans[i]:
+                    ans[i]["oracle_spec"] = {"kind": "undefined"}
+            stats["oracle_specs"] += len(idx)
         out = []
         for c in cases:
             a = ans.get(c["id"], {"error": "no answer"})
@@ -443,6 +603,34 @@ def run(ctx):
             st, det = classify(c["ex"], a, real)
             out.append((c["ex"], a, real, st, det))
         return out
+
+    def attribute(e, table):
+        """A recorded clause explains `real = code != matrix expression` on e only at the sub-expression where code model and
+        matrix expression FIRST differ (children before parents), and only if that node is an instance of the clause's
+        decidable predicate (`Ex.rootClauses`: the node is a `c / A`; the node multiplies / divides a real-dtype operator by a
+        complex scalar) and the real code returns there what the model says.  -> (clauses, unexplained-or-None, nodes)"""
+        clauses, nodes = [], []
+        for d in ex_subexprs(e):
+            rec = table.get(common.canon(d))
+            if rec is None:
+                return clauses, f"sub-expression not evaluated: {json.dumps(d)[:200]}", nodes
+            (_, a, real, st, det) = rec
+            if st in ("violation", "stale-model"):
+                return clauses, f"on the sub-expression {json.dumps(d)[:300]} the real code leaves the code model: {det}", nodes
+            if st != "known?":
+                continue            # agrees (or is itself not comparable: then its parent has to explain itself)
+            kids = [table.get(common.canon(y)) for y in ex_children(d)]
+            if any(k is not None and k[3] == "known?" for k in kids):
+                continue            # the difference is already there in an operand
+            rc = list(a.get("rootClauses", []))
+            if not rc:
+                return clauses, ("code model and matrix expression first differ at the sub-expression "
+                                 f"{json.dumps(d)[:300]}, which is an instance of no recorded clause"), nodes
+            nodes.append({"node": d[0], "clauses": rc})
+            clauses += [c for c in rc if c not in clauses]
+        if not nodes:
+            return clauses, "no sub-expression at which the difference first appears was found", nodes
+        return clauses, None, nodes
 
     if ctx.replay:
         rp = json.load(open(ctx.replay))
@@ -506,8 +694,25 @@ def run(ctx):
                 continue
             r, c = rng.choice([(1, 1), (2, 2), (2, 2), (3, 3), (2, 3), (3, 2), (1, 3), (4, 4), (2, 4), (3, 1)])
             exprs.append(EG.ex(r, c, rng.choice([1, 2, 2, 3, 3, 4])))
+    not_compared = collections.Counter()
     for i in range(0, len(exprs), 500):
-        for (e, a, real, st, det) in evaluate(exprs[i:i + 500]):
+        results = evaluate(exprs[i:i + 500])
+        # per-sub-expression attribution of the `real = code != matrix expression` outcomes: all their sub-expressions are
+        # evaluated (code model, specification with the c / A oracle, real code) in one further batch
+        pending = [e for (e, a, real, st, det) in results if st == "known?"]
+        table = {}
+        if pending:
+            subs, seen = [], set()
+            for e in pending:
+                for d in ex_subexprs(e):
+                    k = common.canon(d)
+                    if k not in seen:
+                        seen.add(k)
+                        subs.append(d)
+            for rec in evaluate(subs):
+                table[common.canon(rec[0])] = rec
+            stats["attribution_subexpressions"] += len(subs)
+        for (e, a, real, st, det) in results:
             stats[st if st != "known?" else "code!=spec"] += 1
             stats["evaluations"] += 1
             for t in set(subtags(e)):
@@ -516,15 +721,24 @@ def run(ctx):
                 scal_hist[s["kind"]] += 1
             if st in ("ok", "known?") and len(subtags(e)) > 1:
                 distinct.add(common.canon(e))
+            if st == "ok" and has_sdiv(e):
+                stats["quotient_coincides_with_inverse"] += 1      # A * (1/c) = c * inverse(A) on this input: no clause needed
             if st == "ok" and len(samples) < 3 and 2 < len(subtags(e)) and len(json.dumps(e)) < 700:
                 samples.append({"expr": e, "model_result": {k: a["code"].get(k) for k in ("kind", "rows", "cols", "dtype", "skel")}})
+            if st in ("driver-error", "skipped", "inexact"):
+                not_compared[f"{st}: {str(det)[:80]}" if det else st] += 1
             if st == "known?":
-                unknown = [c for c in det if c not in known]
-                if not det or unknown:
-                    common.violation(ctx, {"expr": e, "model": a.get("code"), "spec": a.get("spec"), "real": real, "clauses": det,
-                                           "why": "real = code model, but differs from the matrix expression and no recorded finding covers it"})
+                attributed, unexplained, nodes = attribute(e, table)
+                unknown = [c for c in attributed if c not in known]
+                if unexplained is not None or not attributed or unknown:
+                    common.violation(ctx, {"expr": e, "model": a.get("code"), "spec": a.get("oracle_spec", a.get("spec")), "real": real,
+                                           "clauses_in_expression": det, "attributed": nodes, "unexplained": unexplained,
+                                           "why": "real = code model, but differs from the matrix expression, and no recorded finding "
+                                                  "explains the difference at the sub-expression where it first appears"})
                 else:
-                    for c in det:
+                    stats["attributed_nodes"] += len(nodes)
+                    for c in attributed:
+                        attributed_hist[c] += 1
                         common.known_finding(ctx, c, known[c]["what"])
             elif st == "violation":
                 stats["violations_seen"] += 1
@@ -566,13 +780,29 @@ def run(ctx):
                                            "broken": "correspondence stream of the algebra code model"}, no_input=True)
             elif st == "driver-error":
                 ctx.notes.append(f"driver error: {det}")
+    # cases that were NOT compared (driver errors, forms outside the model, results outside the exact range): counted with
+    # their reasons; a stream of which more than 2 % is not compared -- or which did not run -- has not checked the property
+    n_eval = stats["evaluations"]
+    n_nc = sum(not_compared.values())
+    if not ctx.replay and (n_eval == 0 or n_nc > 0.02 * n_eval):
+        common.violation(ctx, {"broken": "correspondence stream of the algebra code model: too many cases were not compared",
+                               "evaluations": n_eval, "not_compared": dict(not_compared.most_common(12))}, no_input=True)
     if gate_err is not None and not ctx.violations:
         common.violation(ctx, {"broken": f"Lean gate of {MODULE}", "detail": gate_err[-3000:]}, no_input=True)
     cov = {"evaluations": stats["evaluations"], "distinct_nontrivial": len(distinct), "outcomes": dict(stats),
+           "not_compared": {"total": n_nc, "share": round(n_nc / max(1, n_eval), 5), "reasons": dict(not_compared.most_common(12)),
+                            "limit": "more than 2 % not compared (or no case evaluated) ends the run with a VIOLATION"},
+           "clauses_attributed": dict(attributed_hist),
            "expression_forms": dict(forms), "scalar_kinds": dict(scal_hist), "samples": samples,
            "rule": "random algebraic expressions (depth <= 4) over operator trees and plain arrays, all scalar kinds, ~8% shape-mismatched "
                    "operand pairs; distinct = canonical JSON of the expression; non-trivial = at least one algebraic operation",
            "compare": "exact (Gaussian-rational payloads, dyadic scalars); real vs code: values, shapes, dtypes, kind trees, annotations; "
-                      "code vs spec: values, shapes, dtype (Ex.dtypeSpec) and array-vs-operator (Ex.yieldsArr)"}
-    common.write_evidence(ctx, gate, cov, assumptions=["c / A is compared against c * inverse(A) only through the recorded clause"])
+                      "code vs spec: values, shapes, dtype (Ex.dtypeSpec) and array-vs-operator (Ex.yieldsArr); a recorded clause "
+                      "explains a code/spec difference only at the sub-expression where it first appears and only if that node is an "
+                      "instance of the clause (Ex.rootClauses)"}
+    common.write_evidence(ctx, gate, cov, assumptions=[
+        "c / A is compared with the exact matrix c * inverse(A) (sdiv_oracle: Gauss-Jordan over the Gaussian rationals, substituted "
+        "as a leaf into the Lean specification); where A * (1/c) happens to equal it the case is counted ok without a clause "
+        "(outcome quotient_coincides_with_inverse), otherwise the recorded clause scalar-divided-by-operator is attributed at the "
+        "c / A node; for a singular A the quotient has no value and the clause is attributed likewise"])
     print(json.dumps({"outcomes": dict(stats), "distinct_nontrivial": len(distinct), "gate": (gate or {}).get("obligations")}))
